@@ -12,6 +12,8 @@ Decided:
   R16.5  no class-/module-level container is filled while a project is parsed or scheduled (scenario id -> index tables,
          caches): such a table answers the next project / scenario from stale entries
   R16.6  no call into the scheduling core relies on a defaulted scenario-index parameter
+  R16.7  loops over all scenario indices are never left early
+  R16.8  a scenario index is never tested for truthiness
 Not decided: equality with single-scenario runs.
 """
 from __future__ import annotations
@@ -68,6 +70,74 @@ def scenario_default_rule(ctx: Ctx, rid: str):
                        key=key_of(rid, caller, call, f"omits {name}"))
     ctx.ob(rid, f"{n_fn} core functions default their scenario parameter; {n_sites} call sites bind it", None, True,
            "no call relies on the default scenario", nontrivial=False)
+
+
+def scenario_loop_and_index_rules(ctx: Ctx):
+    """R16.7: per-scenario loops treat scenarios independently (no break / return inside `for <idx> in range(<scenario count>)`).
+    R16.8: a scenario index is never tested for truthiness (index 0 is the first scenario)."""
+    import re
+    repo = ctx.repo
+    n_loops = 0
+    for fn in sorted(repo.all_funcs(), key=lambda f: f.key):
+        if not (fn.module.rel.startswith("scriptplan/core/") or fn.module.rel.startswith("scriptplan/parser/")):
+            continue
+        for l in own_nodes(fn):
+            if isinstance(l, ast.For) and isinstance(l.iter, ast.Call) and norm(l.iter.func) == "range" and l.iter.args \
+                    and re.search(r"scenario_?count|scenarioCount\(\)", norm(l.iter.args[-1]), re.I):
+                n_loops += 1
+                exits = [x for st in l.body for x in ast.walk(st) if isinstance(x, (ast.Break, ast.Return))
+                         and not any(isinstance(p_, (ast.For, ast.While)) and p_ is not l and any(x is y for y in ast.walk(p_))
+                                     for st2 in l.body for p_ in ast.walk(st2))]
+                if exits:
+                    ctx.ob("R16.7", f"{fn.qual}: per-scenario loop left early ({norm(exits[0])})", (fn, exits[0]), False,
+                           "a break / return inside the loop over all scenarios stops the later scenarios from being treated: what one scenario "
+                           "provides decides whether the scenarios after it inherit / receive their values",
+                           key=key_of("R16.7", fn, None, f"early exit line-independent {norm(l.target)}"))
+    ctx.ob("R16.7", f"{n_loops} loops over all scenario indices run to completion", None, True, "no break / return inside a per-scenario loop",
+           nontrivial=False)
+    if n_loops < 5:
+        raise AnchorMissing(f"per-scenario loops found: {n_loops}")
+    # R16.8
+    ctrl = ast.parse("def f(self, p, sid):\n    scenario_idx = self._get_scenario_index(p, sid)\n    if scenario_idx and p:\n        return 1\n    return 0\n").body[0]
+    for x in ast.walk(ctrl):
+        for c in ast.iter_child_nodes(x):
+            c._parent = x
+
+    def truthy_uses(body_nodes):
+        idx_names = set()
+        for n in body_nodes:
+            if isinstance(n, ast.Assign) and isinstance(n.value, ast.Call) and norm(n.value.func).endswith("_get_scenario_index"):
+                idx_names |= {t.id for t in n.targets if isinstance(t, ast.Name)}
+        out = []
+        for n in body_nodes:
+            tests = []
+            if isinstance(n, (ast.If, ast.While, ast.IfExp)):
+                tests.append(n.test)
+            if isinstance(n, ast.BoolOp):
+                tests += n.values
+            if isinstance(n, ast.UnaryOp) and isinstance(n.op, ast.Not):
+                tests.append(n.operand)
+            for t in tests:
+                if isinstance(t, ast.Name) and (t.id in idx_names or re.fullmatch(r"(sc|scenario)_?idx", t.id, re.I)):
+                    out.append((n, t.id))
+        return out
+    if len(truthy_uses(list(ast.walk(ctrl)))) < 1:
+        raise AnchorMissing("index-truthiness rule: built-in control sample no longer matches")
+    n_fn = 0
+    for fn in sorted(repo.all_funcs(), key=lambda f: f.key):
+        if not (fn.module.rel.startswith("scriptplan/core/") or fn.module.rel.startswith("scriptplan/parser/")):
+            continue
+        n_fn += 1
+        seen = set()
+        for node, name in truthy_uses(list(own_nodes(fn))):
+            if (name, getattr(node, "lineno", 0)) in seen:
+                continue
+            seen.add((name, getattr(node, "lineno", 0)))
+            ctx.ob("R16.8", f"{fn.qual}: scenario index {name} tested for truthiness", (fn, node), False,
+                   f"`{name}` is a scenario index and 0 is the first scenario: a truthiness test treats the first scenario like 'no scenario', so an "
+                   "override addressed to it is silently dropped",
+                   key=key_of("R16.8", fn, None, f"truthiness of {name}"))
+    ctx.ob("R16.8", f"no scenario index is tested for truthiness in {n_fn} functions", None, True, "indices are compared with None", nontrivial=False)
 
 
 def run(ctx: Ctx):
@@ -299,5 +369,6 @@ def run(ctx: Ctx):
     parse_reach = ctx.cg.reach([repo.func("ProjectFileParser.parse"), sched])
     shared_container_census(ctx, "R16.5", parse_reach)
     scenario_default_rule(ctx, "R16.6")
+    scenario_loop_and_index_rules(ctx)
     ctx.floor("R16.2", 12)
     ctx.floor("R16.3", 8)
